@@ -280,3 +280,10 @@ for _p in ('C06', 'C07', 'C11'):
 TEXT['C06']['level'] = ('PROOF, end to end on the model: PropsC07.C06_ReadStringBytes_exact: for ALL inputs and destinations ReadStringBytes (model over the REGENERATED appendRemainderOfString table) succeeds exactly when Ref.read_string_ref does, with the offset after the closing quote and the value = destination ++ decoded content (surrogate pairs combined, lone surrogates -> U+FFFD, raw bytes verbatim); SpecFacts3.unescape_agrees_append: unescaping the bytes between the quotes gives the same content and consumes all of them. Correspondence: all contents <= 3 over 22 bytes, every byte at every position, \\u classes, surrogate grids, corrupted second escapes, capacity boundaries; oracle = reference decoder written from the property text')
 TEXT['C07']['level'] = ('PROOF, end to end on the model: PropsC07.C07_array_traversal / C07_object_traversal: for ALL inputs and ALL well-behaved handlers (each call answered 0 or the exact end of its value) the traversal over the REGENERATED tables succeeds exactly when Ref.members_ref does (null, or a well-formed array/object), the handler calls are exactly the members in document order at the first byte of each value with the raw key bytes, the offset is just after the closing bracket. Correspondence: state x byte sweeps (insert/substitute at every state), exhaustive {0,exact}^k strategy vectors, documents+mutants; oracle = member list via json.Decoder')
 TEXT['C11']['level'] = ('PROOF, end to end on the model: PropsC07.C11_SkipValueFast_agrees_with_SkipValue: for ALL inputs and buffers, whenever SkipValue succeeds with offset n SkipValueFast succeeds with offset n (both over the REGENERATED tables, through their spec machines and SpecFacts2.fast_agrees_spec). Correspondence: sweep of skipValueFast, strings with brackets/quotes/backslashes in 5 templates x following byte; oracle = json.Decoder offset where the strict skip succeeds')
+
+for _p in ('C01', 'C02'):
+    PROPS[_p]['run_files'] = PROPS[_p]['run_files'] + ['PropsC01.v']
+    PROPS[_p]['static_files'] = PROPS[_p]['static_files'] + ['SpecFacts2.v', 'SpecFacts3.v', 'Grammar.v']
+TEXT['C01']['level'] = ('PROOF, end to end on the model against the RFC 8259 grammar: PropsC01.C01_Valid_iff_rfc8259: for ALL inputs and buffers (len <= MaxInt), the model of Valid over the REGENERATED skipValue table reports true iff the input is ws ++ v ++ ws with v a value of the inductive RFC 8259 grammar (Grammar.v: one constructor per production) nested at most 10000 deep. Chain: wf_check + certified simulation with the hand-written spec machine (TieSim) + SpecFacts.valid_spec_correct (spec machine = reference validator) + Grammar.valid_ref_iff (reference = grammar); axiom-free. Correspondence: impl vs model vs json.Valid on state x byte sweeps with per-state completions, small-scope strings, documents+mutants, depth 9999-10001, 3 buffer kinds')
+TEXT['C01']['note'] = _TB + 'encoding/json.Valid is used as an oracle in the correspondence (the theorem is about the grammar).'
+TEXT['C02']['level'] = ('PROOF, end to end on the model against the RFC 8259 grammar: PropsC01.C02_SkipValue_sound / C02_SkipValue_complete (+ PropsC02.C02_SkipValue_exact against the executable reference): for ALL inputs and buffers SkipValue over the REGENERATED table succeeds exactly on ws ++ value (nesting <= 10000) followed by anything that does not continue a number token, and returns the offset just after the value. Correspondence incl. every value x every next byte, truncations at every position, sweeps; oracle json.Decoder offsets')
